@@ -179,42 +179,48 @@ example : agoLater ⟨⟨2020, 1, 31⟩, 52200⟩ .W 2 false true =
 
 /-! ## N个月前 / N个月后 / N年前 / N年后 (the repaired code: `reference + datedelta(months | years = ∓N)`) -/
 
-/-- N年前: the reference moved back by exactly N years (29 February → 28 February in a non-leap year, by the datedelta
-semantics), time of day kept — for every reference and every N. -/
+/-- N年前: the reference moved back by exactly N years — the FULL date: year − N, same month and day, except that
+29 February lands on 28 February when the target year is not a leap year (`yearStepMD`, the datedelta semantics) —
+time of day kept, for every reference and every N. -/
 theorem zh_n_years_ago (R : DateTime) (hv : R.date.valid = true) (n : Nat) (after : Bool) (t : Str) (f p : DateTime)
     (h : agoLater R .Y n true after = .ok t f p) :
-    f = p ∧ f.date.valid = true ∧ (f.date.y : Int) = R.date.y - n ∧ f.secs = R.secs ∧ t = luisDateOf f := by
+    f = p ∧ f.date.valid = true ∧ (f.date.y : Int) = R.date.y - n ∧ (f.date.m, f.date.d) = yearStepMD R.date (-(n : Int)) ∧
+    f.secs = R.secs ∧ t = luisDateOf f := by
   have s := optDate_ok (addDelta R (-(n : Int)) 0 0) t f p h
   unfold addDelta at s
   cases hd : datedeltaAdd R.date (-(n : Int)) 0 0 with
   | none => simp [hd] at s
   | some d =>
     simp only [hd, Option.map_some, Option.some.injEq] at s
-    have y := datedeltaAdd_years R.date hv _ d hd
+    have y := datedeltaAdd_years_full R.date hv _ d hd
     obtain ⟨s1, s2, s3⟩ := s
     subst s1
-    exact ⟨s2, y.1, by simp only; omega, rfl, s3⟩
+    exact ⟨s2, y.1, by simp only; omega, y.2.2, rfl, s3⟩
 
-/-- N年后: forward by exactly N years. -/
+/-- N年后: forward by exactly N years — the full date: year + N, same month and day, 29 February → 1 March when the
+target year is not a leap year (`yearStepMD`). -/
 theorem zh_n_years_later (R : DateTime) (hv : R.date.valid = true) (n : Nat) (t : Str) (f p : DateTime)
     (h : agoLater R .Y n false true = .ok t f p) :
-    f = p ∧ f.date.valid = true ∧ (f.date.y : Int) = R.date.y + n ∧ f.secs = R.secs ∧ t = luisDateOf f := by
+    f = p ∧ f.date.valid = true ∧ (f.date.y : Int) = R.date.y + n ∧ (f.date.m, f.date.d) = yearStepMD R.date (n : Int) ∧
+    f.secs = R.secs ∧ t = luisDateOf f := by
   have s := optDate_ok (addDelta R (n : Int) 0 0) t f p h
   unfold addDelta at s
   cases hd : datedeltaAdd R.date (n : Int) 0 0 with
   | none => simp [hd] at s
   | some d =>
     simp only [hd, Option.map_some, Option.some.injEq] at s
-    have y := datedeltaAdd_years R.date hv _ d hd
+    have y := datedeltaAdd_years_full R.date hv _ d hd
     obtain ⟨s1, s2, s3⟩ := s
     subst s1
-    exact ⟨s2, y.1, by simp only; omega, rfl, s3⟩
+    exact ⟨s2, y.1, by simp only; omega, y.2.2, rfl, s3⟩
 
-/-- N个月前: the month of the reference moved back by exactly N calendar months (`shiftMonth`), the day clamped to the
-month's end when it does not exist (datedelta semantics), time of day kept — for every reference and every N. -/
+/-- N个月前: the FULL date — the month of the reference moved back by exactly N calendar months (`shiftMonth`), the day
+kept, clamped to the target month's end when it does not exist there (`min`, datedelta semantics) — time of day kept,
+for every reference and every N. -/
 theorem zh_n_months_ago (R : DateTime) (hv : R.date.valid = true) (n : Nat) (after : Bool) (t : Str) (f p : DateTime)
     (h : agoLater R .MON n true after = .ok t f p) :
     f = p ∧ f.date.valid = true ∧ ((f.date.y : Int), f.date.m) = shiftMonth R.date.y R.date.m (-(n : Int)) ∧
+    f.date.d = min R.date.d (daysInMonth (shiftMonth R.date.y R.date.m (-(n : Int))).1.toNat (shiftMonth R.date.y R.date.m (-(n : Int))).2) ∧
     f.secs = R.secs ∧ t = luisDateOf f := by
   have s := optDate_ok (addDelta R 0 (-(n : Int)) 0) t f p h
   unfold addDelta at s
@@ -222,28 +228,28 @@ theorem zh_n_months_ago (R : DateTime) (hv : R.date.valid = true) (n : Nat) (aft
   | none => simp [hd] at s
   | some d =>
     simp only [hd, Option.map_some, Option.some.injEq] at s
-    have y := datedeltaAdd_months R.date hv _ d hd (Or.inl (by omega))
+    have y := datedeltaAdd_months_full R.date hv _ d hd (Or.inl (by omega))
     obtain ⟨s1, s2, s3⟩ := s
     subst s1
-    exact ⟨s2, y.1, by simp only; rw [Prod.ext_iff]; exact ⟨y.2.1, y.2.2⟩, rfl, s3⟩
+    exact ⟨s2, y.1, by simp only; rw [Prod.ext_iff]; exact ⟨y.2.1, y.2.2.1⟩, y.2.2.2, rfl, s3⟩
 
-/-- N个月后: forward by exactly N calendar months whenever the reference's day exists in the target month (otherwise the
-datedelta semantics roll forward to the 1st of the month after: `monthStep`). -/
+/-- N个月后: the FULL date — forward by exactly N calendar months, SAME day — whenever the reference's day exists in the
+target month (otherwise the datedelta semantics roll forward to the 1st of the month after: `monthStep`, example below). -/
 theorem zh_n_months_later (R : DateTime) (hv : R.date.valid = true) (n : Nat) (t : Str) (f p : DateTime)
     (h : agoLater R .MON n false true = .ok t f p)
     (g : R.date.d ≤ daysInMonth (shiftMonth R.date.y R.date.m n).1.toNat (shiftMonth R.date.y R.date.m n).2) :
     f = p ∧ f.date.valid = true ∧ ((f.date.y : Int), f.date.m) = shiftMonth R.date.y R.date.m (n : Int) ∧
-    f.secs = R.secs ∧ t = luisDateOf f := by
+    f.date.d = R.date.d ∧ f.secs = R.secs ∧ t = luisDateOf f := by
   have s := optDate_ok (addDelta R 0 (n : Int) 0) t f p h
   unfold addDelta at s
   cases hd : datedeltaAdd R.date 0 (n : Int) 0 with
   | none => simp [hd] at s
   | some d =>
     simp only [hd, Option.map_some, Option.some.injEq] at s
-    have y := datedeltaAdd_months R.date hv _ d hd (Or.inr g)
+    have y := datedeltaAdd_months_full R.date hv _ d hd (Or.inr g)
     obtain ⟨s1, s2, s3⟩ := s
     subst s1
-    exact ⟨s2, y.1, by simp only; rw [Prod.ext_iff]; exact ⟨y.2.1, y.2.2⟩, rfl, s3⟩
+    exact ⟨s2, y.1, by simp only; rw [Prod.ext_iff]; exact ⟨y.2.1, y.2.2.1⟩, by simp only; rw [y.2.2.2]; omega, rfl, s3⟩
 
 /-- days and weeks are untouched by the repair -/
 theorem zh_ago_later_days_weeks_unchanged (R : DateTime) (n : Int) (before after : Bool) :
